@@ -19,11 +19,22 @@ def _index_sorts():
     return INDEX_SORTS
 
 
-def collect_terms(formulas, sorts, limit=400):
-    """Ground subterms of the given sorts (non-numeral), for instantiation."""
+_TERMS_OF = {}  # formula id -> (formula kept alive, {sort name: [terms]})
+_WANTED = None
+
+
+def _terms_of(f):
+    """ground non-numeral subterms of one formula, by sort name (memoised per formula)"""
+    global _WANTED
+    if _WANTED is None:
+        _WANTED = {z3.IntSort().name(), core.Key.name(), core.Ref.name(), core.StrS.name()}
+    fid = f.get_id()
+    hit = _TERMS_OF.get(fid)
+    if hit is not None:
+        return hit[1]
+    out = {}
     seen = set()
-    out = {s.name(): [] for s in sorts}
-    stack = list(formulas)
+    stack = [f]
     while stack:
         t = stack.pop()
         tid = t.get_id()
@@ -33,11 +44,29 @@ def collect_terms(formulas, sorts, limit=400):
         if z3.is_quantifier(t):
             continue
         sn = t.sort().name()
-        if sn in out and z3.is_app(t):
-            if not (z3.is_int_value(t) or z3.is_rational_value(t)):
-                if len(out[sn]) < limit:
-                    out[sn].append(t)
+        if sn in _WANTED and z3.is_app(t) and not (z3.is_int_value(t) or z3.is_rational_value(t)):
+            out.setdefault(sn, []).append(t)
         stack.extend(t.children())
+    _TERMS_OF[fid] = (f, out)
+    return out
+
+
+def collect_terms(formulas, sorts, limit=400):
+    """Ground subterms of the given sorts (non-numeral), for instantiation."""
+    out = {s.name(): [] for s in sorts}
+    seen = {k: set() for k in out}
+    for f in formulas:
+        for sn, ts in _terms_of(f).items():
+            if sn not in out:
+                continue
+            lst, sset = out[sn], seen[sn]
+            for t in ts:
+                if len(lst) >= limit:
+                    break
+                i = t.get_id()
+                if i not in sset:
+                    sset.add(i)
+                    lst.append(t)
     return out
 
 
@@ -55,24 +84,39 @@ class VC:
         self.n_instances = 0
 
 
-def build_vc(name, st, goal, extra_hyps=(), extra_index=(), rounds=2, meta=None):
-    """hyps = path condition + string-literal distinctness + ground instances of ForallFacts."""
+def build_vc(name, st, goal, extra_hyps=(), extra_index=(), rounds=3, meta=None, level=0):
+    """hyps = path condition + string-literal distinctness + ground instances of ForallFacts.
+    level > 0: larger instantiation pools (used to re-try a `sat` answer before reporting it)."""
+    pair_cap = 32 if level == 0 else 72
+    if level > 0:
+        rounds += 1
     hyps = list(st.pc) + list(extra_hyps)
     foralls = list(st.foralls)
     ninst = 0
     if foralls:
         done = set()
         base_terms = list(st.index_terms) + list(extra_index)
+        base_ids = {t.get_id() for t in base_terms}
+        if not any(ff.nested for ff in foralls):
+            rounds = min(rounds, 2 if level == 0 else 3)
         for _ in range(rounds):
-            pool = collect_terms(hyps + [goal] + base_terms, [z3.IntSort(), core.Key, core.Ref, core.StrS])
+            pool = collect_terms(base_terms + [goal] + hyps[::-1], [z3.IntSort(), core.Key, core.Ref, core.StrS])
             # small integer constants are always candidates
             pool[z3.IntSort().name()] = pool[z3.IntSort().name()] + [z3.IntVal(0)]
+            # keys built from string / int terms (quantified facts over Key instantiated at KStr(s), KInt(i))
+            kn = core.Key.name()
+            have = {t.get_id() for t in pool.get(kn, [])}
+            for t in [b for b in base_terms if b.sort() == core.StrS]:
+                kt = core.KStr(t)
+                if kt.get_id() not in have:
+                    pool.setdefault(kn, []).append(kt)
+                    have.add(kt.get_id())
             new = []
             for fi, ff in enumerate(foralls):
                 if isinstance(ff.k, (list, tuple)):
                     import itertools
 
-                    pools = [pool.get(k.sort().name(), [])[:24] for k in ff.k]
+                    pools = [pool.get(k.sort().name(), [])[:pair_cap] for k in ff.k]
                     for tup in itertools.product(*pools):
                         key = (fi,) + tuple(t.get_id() for t in tup)
                         if key in done:
@@ -87,6 +131,11 @@ def build_vc(name, st, goal, extra_hyps=(), extra_index=(), rounds=2, meta=None)
                         continue
                     done.add(key)
                     new.append(ff.inst(t))
+                    if ff.nested and t.get_id() in base_ids and len(foralls) < 400:
+                        # quantified facts created at the generic key: carried along only at the demanded
+                        # keys (Skolem constants and witnesses), not at every term of the pool
+                        for nf in ff.nested:
+                            foralls.append(nf.subst([(ff.k, t)]))
                 if ff.bvar is not None and (fi, "w") not in done:
                     done.add((fi, "w"))
                     new.append(ff.witness_axiom())
@@ -94,10 +143,18 @@ def build_vc(name, st, goal, extra_hyps=(), extra_index=(), rounds=2, meta=None)
                 break
             ninst += len(new)
             hyps.extend(new)
+            for ff in foralls:
+                if ff.bvar is not None and ff.witness is not None and ff.witness.get_id() not in base_ids:
+                    base_ids.add(ff.witness.get_id())
+                    base_terms.append(ff.witness)
+            if ninst > 20000:
+                break
     hyps.extend(core.strlit_axioms())
     vc = VC(name, hyps, goal, meta)
     vc.n_instances = ninst
     vc.complete = not foralls
+    if foralls and level == 0:
+        vc.rebuild = lambda: build_vc(name, st, goal, extra_hyps, extra_index, 3, meta, level=1)
     return vc
 
 
@@ -171,6 +228,16 @@ def discharge_cvc5(vc, timeout_s=40, extra_args=()):
 def discharge(vc, tier="quick", want_model=None):
     tz = 20000 if tier == "quick" else 120000
     discharge_z3(vc, tz, want_model)
+    if vc.verdict == "sat" and getattr(vc, "rebuild", None) is not None:
+        # a model under incomplete instantiation may be spurious: re-try once with larger pools
+        v2 = vc.rebuild()
+        discharge_z3(v2, tz, want_model)
+        if v2.verdict == "unsat":
+            vc.verdict, vc.model, vc.reason = "unsat", None, None
+            vc.hyps, vc.n_instances = v2.hyps, v2.n_instances
+            vc.seconds += v2.seconds
+            vc.backend = (vc.backend or "") + " (2nd instantiation level)"
+            return vc
     if vc.verdict == "unknown":
         try:
             discharge_cvc5(vc, 40 if tier == "quick" else 120)
